@@ -70,6 +70,39 @@ func OTree(t *rapid.T, depth int) *ONode {
 	}
 }
 
+// OSized wraps or extends a small tree so that one dimension of the document - the depth of the path to the
+// subtree, the index of the subtree in an array, the length of a key on the way - is a power of two between 8 and
+// 256, or one less, or one more (and 9/10/11, 99/100/101: where an index gets another digit).
+func OSized(t *rapid.T, sub *ONode) *ONode {
+	sizes := []int{7, 8, 9, 10, 11, 15, 16, 17, 31, 32, 33, 63, 64, 65, 99, 100, 101, 127, 128, 129, 255, 256, 257}
+	n := sizes[sim.Intn(t, len(sizes), "size")]
+	switch sim.Intn(t, 3, "sizedim") {
+	case 0: // depth: n levels of single-child containers above the subtree
+		if n > 65 {
+			n = 31 + n%3 // (descents over deeper chains make the reference evaluation itself explode)
+		}
+		cur := sub
+		for i := 0; i < n; i++ {
+			if i%3 == 1 {
+				cur = &ONode{Kind: 'o', Keys: []string{docKeys[i%len(docKeys)]}, Kids: []*ONode{cur}}
+			} else {
+				cur = &ONode{Kind: 'a', Kids: []*ONode{cur}}
+			}
+		}
+		return cur
+	case 1: // index: an array of n small scalars with the subtree last (index n) and once more in the middle
+		a := &ONode{Kind: 'a'}
+		for i := 0; i < n; i++ {
+			a.Kids = append(a.Kids, &ONode{Kind: 's', Text: []string{"1", "null", "\"x\"", "2.5"}[i%4]})
+		}
+		a.Kids[n/2] = OTree(t, 1)
+		a.Kids = append(a.Kids, sub)
+		return a
+	default: // key length
+		return &ONode{Kind: 'o', Keys: []string{"a", strings.Repeat("k", n), "b"}, Kids: []*ONode{{Kind: 's', Text: "1"}, sub, {Kind: 's', Text: "2"}}}
+	}
+}
+
 func quoteKey(k string) string {
 	var b strings.Builder
 	b.WriteByte('"')
